@@ -5,7 +5,7 @@ BASE = 'cd /repo && /venv/bin/python -m pytest -ra -q -p no:cacheprovider --time
 ALL = [f'C{n:02d}' for n in range(1, 21)]
 CHECKS = {
  'C01': dict(cat='model_checking', ref='5 (C01)',
-   text='Bounded-exhaustive: TLC enumerates every netlist of the universe U(2,2,18 types,arity<=3) (thorough: also U(3,3,T6,2), U(3,2,18,3)); each is built in the real library (plain / relabelled / non-topological storage), all 2^n rows are pushed through all seven evaluation entry points and TLC judges every recorded value against the denotational semantics (GateSet/GateTT of the specification); plus seeded random circuits up to 6 inputs / 30 gates / arity 5 and per-type operator tables. GateLemmas.tla proves (exhaustively, arity<=4) that the row-set, three-valued, bench-rewrite and truth-table-code renderings denote the one GateFn.',
+   text='Bounded-exhaustive: TLC enumerates every netlist of the universe U(2,2,18 types,arity<=3) (thorough: also U(3,3,T6,2), U(3,2,18,3)); each is built in the real library (plain / relabelled / non-topological storage), all 2^n rows are pushed through all seven evaluation entry points and TLC judges every recorded value against the denotational semantics (GateSet/GateTT of the specification); plus seeded random circuits up to 6 inputs / 30 gates / arity 5 and per-type operator tables. GateLemmas.tla proves (exhaustively, arity<=4) that the row-set, three-valued, bench-rewrite and truth-table-code renderings denote the one GateFn. The CNF template of every gate type is judged for exactness on one-gate circuits, the pattern simulation of the subcircuit minimiser on all 16 x 16 operand patterns; what the library raises while a gate table is read is an observation.',
    note='Trusted: TLC, the specification modules GateSemantics/CircuitSem, the recorder (transcribes return values only). CNF templates, synthesis codes and pattern simulation are bound in C05/C06/C04 rather than here.',
    tech='TLA+ reference semantics; TLC-enumerated circuits replayed into cirbo; recorded evaluations validated by a TLC trace specification'),
 
@@ -14,11 +14,11 @@ CHECKS = {
    note='Trusted: TLC, projection (public accessors only), replay glue. Bounded exhaustive (Pool5, T6, <=3(+2) gates, depth 3 quick / 4 thorough), sampled beyond.',
    tech='TLA+ state machine of the Circuit API model-checked by TLC; every TLC transition replayed into cirbo; recorded states validated by a TLC trace specification'),
  'C10': dict(cat='model_checking', ref='5 (C10)',
-   text='All connect transitions of the CircuitAPI exploration, thousands of TLC-enumerated circuit pairs with seed-chosen connectors (internal gates, repeated connectors, partial lists, six entry points, naming/prefix) and random repeated compositions are replayed into cirbo; TLC evaluates the two-stage denotational composition (independent of how the code splices) and judges interface, truth table, non-modification of the attached circuit and block re-extraction.',
+   text='All connect transitions of the CircuitAPI exploration, thousands of TLC-enumerated circuit pairs with seed-chosen connectors (internal gates, repeated connectors, partial lists, six entry points, naming/prefix) and random repeated compositions are replayed into cirbo; TLC evaluates the two-stage denotational composition (independent of how the code splices) and judges interface, truth table, non-modification of the attached circuit and block re-extraction. A composition the documentation allows (the enabling condition of the CircuitOps model holds) must be carried out: a raise is a verdict; calls outside the quantifier are not judged.',
    note='Trusted: TLC, CircuitSem/JudgeHist.C10Expected, projection. Region left unjudged: right-connection pairing one primary input of the attached circuit with several base inputs; block re-extraction only for repeat-free connectors.',
    tech='TLA+ denotational composition evaluated by TLC on recorded connect calls generated from the TLC-explored API model'),
  'C14': dict(cat='model_checking', ref='5 (C14)',
-   text='into_bench is replayed on every TLC-enumerated universe circuit over all 18 types (with blocks, repeated outputs) and on API-model transitions and random histories; TLC judges interface, truth tables of all original gates, remaining type set, well-formedness (users index) and block membership of helper gates; into_graphviz_digraph(as_bench=True) must leave its receiver unchanged. GateLemmas.RewriteKeeps proves the rewrite table at the gate level.',
+   text='into_bench is replayed on every TLC-enumerated universe circuit over all 18 types (with blocks, repeated outputs) and on API-model transitions and random histories; TLC judges interface, truth tables of all original gates, remaining type set, well-formedness (users index) and block membership of helper gates; into_graphviz_digraph(as_bench=True) must leave its receiver unchanged. GateLemmas.RewriteKeeps proves the rewrite table at the gate level. The dot text of into_graphviz_digraph(as_bench=True) is parsed: only bench symbols, every helper gate inside each block cluster of the gate it feeds.',
    note='Trusted: TLC, CircuitSem, projection. Circuits with constants but no input are outside the property.',
    tech='TLC-enumerated circuits replayed into cirbo; recorded conversions validated by a TLC trace specification'),
  'C19': dict(cat='model_checking', ref='5 (C19)',
@@ -92,7 +92,7 @@ CHECKS = {
    tech='TLA+ reference arithmetic and algorithm-level netlist-builder models (ArithAlgo: subtractors, restoring division, digit square root, gadgets) checked by TLC; recorded circuits and emitted netlists validated against them'),
 
  'C04': dict(cat='exploration', ref='5 (C04), 14.4',
-   text='Seeded random circuits over the supported gate set (with and without functionally equivalent gates) x bases x size / cut / limit / time-limit / validation settings; every minimize_subcircuits call runs in its own interpreter under a seed-chosen PYTHONHASHSEED and a seed-perturbed cut family (shim enumerator, the supplied family is recorded). TLC judges the returned circuit against a deep copy of the argument: same inputs, same number of outputs, same truth table, not more non-trivial gates; FailedValidationError never; no internal error on circuits TLC finds free of equivalent gates. The function has ten listed known findings (DESIGN 14.4); a failure is attributed to one only if a named deviation operator of the specification explains it (wrong-result findings) or its call-site signature matches (internal errors); anything else is a VIOLATION.',
+   text='Seeded random circuits over the supported gate set (with and without functionally equivalent gates) x bases x size / cut / limit / time-limit / validation settings; every minimize_subcircuits call runs in its own interpreter under a seed-chosen PYTHONHASHSEED and a seed-perturbed cut family (shim enumerator, the supplied family is recorded). TLC judges the returned circuit against a deep copy of the argument: same inputs, same number of outputs, same truth table, not more non-trivial gates; FailedValidationError never; no internal error on circuits TLC finds free of equivalent gates. The function has ten listed known findings (DESIGN 14.4); a failure is attributed to one only if a named deviation operator of the specification explains it (wrong-result findings) or its call-site signature matches (internal errors); anything else is a VIOLATION. The truth tables with don\'t-cares derived for the cones are observed from outside and compared by TLC with the working circuit on every reachable leaf pattern (drift).',
    note='Trusted: TLC, JudgePass.C04Fails and the deviation operators, the cut-enumerator and solver shims (inside the property quantifier). Exploration only: the input space is sampled.',
    tech='recorded minimisation calls validated by a TLC trace specification with named deviation operators for the known findings'),
 }
